@@ -39,5 +39,5 @@ cfg("MC_Group_q_com2", variants="A_comq", nbrv="N_comq", nbrp=23, accp=13, maxp=
 cfg("MC_Group_t_one", variants="A_one", nv="D_one", naive=29, nbrv="N_one", nbrp=90, arith="TRUE", **T)
 cfg("MC_Group_t_com1", variants="A_com1", nv="D_com1", naive=13, nbrv="A_com1q", nbrp=47, accp=47, **T)
 cfg("MC_Group_t_two", variants="A_two", nv="D_two", naive=17, nbrv="A_twoq", nbrp=47, accp=60, **T)
-cfg("MC_Group_t_com2", variants="A_com", nv="D_com", naive=11, nbrv="N_com", nbrp=31, accp=19, **Q)
+cfg("MC_Group_t_com2", variants="A_com", nbrv="N_com", nbrp=31, accp=19, **Q)   # (filtering a whole n=2 block exceeds TLC's set size limit from p=9 on)
 cfg("MC_Group_t_com3", variants="A_com3", nbrv="A_com3", nbrp=23, accp=11, maxp=23, maxq=11, maxk=3)
